@@ -299,6 +299,93 @@ def collect(ctx: Ctx):
             await asyncio.sleep(6)
             if l._protocol:
                 l._disconnect()
+        # (a) the same frame sent twice with a re-authentication in between: the second request is encrypted under the NEW session key with the next counter
+        # (b) forty responses in one segment: all of them are handed out
+        # (c) a bit of the SIZE field altered in a response that has another packet behind it in the stream: a protocol error, whatever the framer cuts out
+        for k in range(ctx.pick(6, 60)):
+            l = LAN("10.0.0.1", 6444, 81)
+            await l.authenticate(tok, key)
+            f = rbytes(rng, rng.choice([5, 20, 34]))
+            dev.respond = respond
+            plan["mode"] = None
+            sub = k % 3
+            if sub == 0:
+                n0 = len(dev.rx)
+                lost = {"n": 1}
+
+                def respond_lossy(tr, packets):
+                    if packets[0][5] & 0xF != 1 and lost["n"] > 0:
+                        lost["n"] -= 1                      # the unit misses this transmission: the client retransmits
+                        return
+                    return respond(tr, packets)
+                dev.respond = respond_lossy
+                try:
+                    await l.send(f, retries=2)
+                    await l.authenticate(tok, key)
+                    r = await l.send(f, retries=1)
+                    res = {"k": "frame", "f": B(r[0]) if r else []}
+                except Exception as e:  # noqa: BLE001 - code under test
+                    res = {"k": "raise", "exc": type(e).__name__}
+                dev.respond = respond
+                skey = dev.sess[net.conns[-1].cid]["key"]
+                # on this connection so far: handshake (counter 0), data, data (retransmission), handshake, data - every packet one counter further
+                seq = [x for x in dev.rx if x.get("conn") == net.conns[-1].cid and x["kind"] in ("hs", "data")]
+                for idx, x in enumerate(seq):
+                    if x["kind"] != "data":
+                        continue
+                    kx = dev.keys.get(x.get("keyid", 0), skey)
+                    d = landev.v3_dec_packet(kx, x["raw"])
+                    vectors.append({"kind": "encreq", "payload": B(d.get("payload", b"")), "ctr": idx, "res": {"k": "frame", "f": B(x["raw"])}, "o": v3_oracle(kx, x["raw"]),
+                                    "via": f"LAN.send, packet {idx + 1} of a connection with a lost transmission and a re-authentication"})
+                if len([x for x in seq if x["kind"] == "data"]) < 3:
+                    vectors.append({"kind": "encreq", "payload": [], "ctr": 0, "res": {"k": "raise", "exc": "NothingOnWire"}, "o": v3_oracle(skey, b""), "via": "LAN.send, expected three data packets on the wire"})
+                ref = landev.v3_enc_packet(skey, f, 0)
+                vectors.append({"kind": "decresp", "payload": B(f), "ctr": 0, "p": B(ref), "o": v3_oracle(skey, ref), "res": res, "via": "LAN.send, same frame again after a re-authentication"})
+            elif sub == 1:
+                skey = dev.sess[net.conns[-1].cid]["key"]
+                frames40 = [rbytes(rng, rng.choice([1, 5, 20])) for _ in range(40)]
+                blob = b"".join(landev.v3_enc_packet(skey, landev.v2_wrap(x, 81), 100 + j) for j, x in enumerate(frames40))
+
+                def respond40(tr, packets, blob=blob):
+                    if packets[0][5] & 0xF == 1:
+                        return respond(tr, packets)
+                    loop.call_later(0.001, tr.feed, blob)
+                dev.respond = respond40
+                try:
+                    r = list(await l.send(f, retries=1))
+                except Exception as e:  # noqa: BLE001
+                    r = type(e).__name__
+                dev.respond = respond
+                for j in (0, 1, 31, 32, 33, 39):
+                    ref = landev.v3_enc_packet(skey, frames40[j], 0)
+                    res = {"k": "raise", "exc": r} if isinstance(r, str) else ({"k": "frame", "f": B(r[j])} if j < len(r) else {"k": "raise", "exc": "nothing (response %d of 40 not returned)" % (j + 1)})
+                    vectors.append({"kind": "decresp", "payload": B(frames40[j]), "ctr": 0, "p": B(ref), "o": v3_oracle(skey, ref), "res": res, "via": f"LAN.send, response {j + 1} of 40 in one segment"})
+            else:
+                skey = dev.sess[net.conns[-1].cid]["key"]
+                payload = landev.v2_wrap(f, 81)
+                pk = landev.v3_enc_packet(skey, payload, 9, 3, padbytes=rbytes(rng, 16))
+                q = bytearray(pk)
+                q[3] ^= 1 << rng.randrange(4)                     # one of the low four bits of the size field
+                q = bytes(q)
+                tail = landev.v3_enc_packet(skey, landev.v2_wrap(rbytes(rng, 20), 81), 10)
+
+                def respondq(tr, packets, q=q, tail=tail):
+                    if packets[0][5] & 0xF == 1:
+                        return respond(tr, packets)
+                    loop.call_later(0.001, tr.feed, q + tail)
+                dev.respond = respondq
+                try:
+                    r = await l.send(f, retries=1)
+                    res = {"k": "frame", "f": B(r[-1]) if r else []}
+                except Exception as e:  # noqa: BLE001
+                    res = {"k": "raise", "exc": type(e).__name__}
+                dev.respond = respond
+                vectors.append({"kind": "mutant", "mut": [3, -1], "payload": B(payload), "ctr": 9, "orig": B(pk), "oo": v3_oracle(skey, pk),
+                                "q": B(q), "o": v3_oracle(skey, q), "o2": v2_oracle(_hs_or_frame(q, skey)), "res": res, "res2": res,
+                                "via": "LAN.send, size-field bit altered in a response followed by another packet in the same segment"})
+            await asyncio.sleep(3)
+            if l._protocol:
+                l._disconnect()
         # straddling the key lifetime
         for k in range(ctx.pick(4, 30)):
             l = LAN("10.0.0.1", 6444, 79)
